@@ -85,7 +85,7 @@ func init() {
 		objectPut,
 		objectHasProperty,
 		objectHasOwnProperty,
-		objectDefineOwnProperty,
+		stringDefineOwnProperty,
 		objectDelete,
 		stringEnumerate,
 		objectClone,
